@@ -42,8 +42,28 @@ class Boom(Exception):
     pass
 
 
-EXC = {"Boom": Boom, "StopIteration": StopIteration, "KeyboardInterrupt": KeyboardInterrupt,
-       "AttributeError": AttributeError}
+class BaseBoom(BaseException):
+    pass
+
+
+def _mk(cls):
+    def make(msg):
+        if cls is UnicodeDecodeError:
+            return cls("utf-8", b"\xff", 0, 1, msg)
+        return cls(msg)
+    make.cls = cls
+    return make
+
+
+# the classes the fault injector ranges over: the library's own distinctions (StopIteration,
+# AttributeError, Exception vs BaseException, KeyboardInterrupt) and whatever third-party code may raise
+EXC = {n: _mk(c) for n, c in {
+    "Boom": Boom, "StopIteration": StopIteration, "KeyboardInterrupt": KeyboardInterrupt,
+    "AttributeError": AttributeError, "ValueError": ValueError, "UnicodeDecodeError": UnicodeDecodeError,
+    "TypeError": TypeError, "KeyError": KeyError, "RuntimeError": RuntimeError, "OSError": OSError,
+    "GeneratorExit": GeneratorExit, "BaseBoom": BaseBoom}.items()}
+GENERIC_EXC = ["Boom", "ValueError", "UnicodeDecodeError", "TypeError", "KeyError", "RuntimeError", "OSError",
+               "KeyboardInterrupt", "GeneratorExit", "BaseBoom"]
 
 
 # ------------------------------------------------------------------------------------------
@@ -263,6 +283,22 @@ class History:
         elif n == "initRender":
             it, fin, cs, asc, rp = (x == "1" for x in op[1:6])
             r.styled_render(it, fin, cs, asc, AlignedPadding(0, -2) if rp else ExactPadding())
+        elif n == "handover":
+            # data and iterator die in the same collection; the order of their finalizers is forced by the
+            # generations the two objects are in when it runs
+            fin, args, k, data_first = op[1] == "1", op[2], int(op[3]), op[4] == "1"
+            idx = self.rec.n_objs
+            data = r._get_render_data_(iteration=True)
+            r.live.clear()
+            self.owner[idx] = "c"
+            if not data_first:
+                gc.collect(0)
+            ra = {"none": None, "own": RenderArgs(R), "ancestor": RenderArgs(Renderable)}[args]
+            it = RenderIterator._from_render_data_(r, data, ra, finalize=fin)
+            if fin:
+                self.owner[idx] = "l"
+            for _ in range(k):
+                next(it)
         elif n == "draw":
             animate, cs, loops, cache = op[1] == "1", op[2] == "1", int(op[3]), cache_arg(op[4])
             r.draw(animate=animate, check_size=cs, loops=loops, cache=cache)
@@ -384,13 +420,24 @@ class History:
 
 sys.unraisablehook = lambda *a: None  # a finalizer that raises inside a `__del__` is ignored by CPython
 
+gc.disable()  # collections happen exactly where the harness asks for them (finalizer order is then reproducible)
 gc.collect()
 gc.freeze()  # keeps the per-operation gc.collect() cheap: only objects made from here on are scanned
 
 
+def del_calls_finalize():
+    """read off the source of `RenderData.__del__`: its only call is `self.finalize()`"""
+    import ast
+    import inspect
+    import textwrap
+    tree = ast.parse(textwrap.dedent(inspect.getsource(_orig_del)))
+    calls = [n for n in ast.walk(tree) if isinstance(n, ast.Call)]
+    return len(calls) == 1 and ast.unparse(calls[0]) == "self.finalize()"
+
+
 def exc_class(name):
     from term_image.renderable import RenderSizeOutofRangeError
-    return {**EXC, "ValueError": ValueError, "RenderSizeOutofRangeError": RenderSizeOutofRangeError,
+    return {**{n: f.cls for n, f in EXC.items()}, "RenderSizeOutofRangeError": RenderSizeOutofRangeError,
             "StopDefiniteIterationError": RI.StopDefiniteIterationError,
             "FinalizedIteratorError": RI.FinalizedIteratorError}[name]
 
@@ -404,7 +451,7 @@ def real_finseq(calls):
         outs = []
         for by, raises in calls:
             h.rec.n_fin = 0
-            h.rec.fin_fault = [0, Boom] if raises else None
+            h.rec.fin_fault = [0, EXC["Boom"]] if raises else None
             try:
                 data.finalize()
                 outs.append("ok")
@@ -459,8 +506,9 @@ def run_real(fc, ops):
 # ------------------------------------------------------------------------------------------
 # generators
 
-RENDER_EXC = ["Boom", "StopIteration", "KeyboardInterrupt", "AttributeError"]
+RENDER_EXC = ["Boom", "StopIteration", "KeyboardInterrupt", "AttributeError", "ValueError"]  # full cross product
 WRITE_EXC = ["Boom", "KeyboardInterrupt"]
+ALL_RENDER_EXC = GENERIC_EXC + ["StopIteration", "AttributeError"]
 ARGS_KINDS = ["none", "own", "ancestor"]
 CACHES = ["off", "on", "upto 1", "upto 2", "upto 3", "upto 100", "upto 0"]
 
@@ -503,6 +551,39 @@ def exhaustive(max_fc):
         for f in faults + [hook]:
             yield mk_case(fc, [(("render",), f)], "x-render")
             yield mk_case(fc, [(("str",), f), (("render",), None)], "x-str")
+        # every exception class × every operation kind that renders, fault in the first and in the second render
+        for e in ALL_RENDER_EXC:
+            if e in RENDER_EXC:
+                continue
+            for k in (0, 1):
+                f = ("render", k, e)
+                yield mk_case(fc, [(("render",), f)], "x-exc-render")
+                yield mk_case(fc, [(("str",), f)], "x-exc-render")
+                yield mk_case(fc, [(("initRender", "0", "1", "1", "0", "1"), f)], "x-exc-render")
+                for animate in ("0", "1"):
+                    yield mk_case(fc, [(("draw", animate, "1", "2", "off", str(k + 3)), f)], "x-exc-draw")
+                if fc != 1:
+                    for pos in (0, 1):
+                        ops = [(("iterNew", "2", "off"), None)] + [(("next", "0"), None)] * pos
+                        ops += [(("next", "0"), f), (("seek", "0", "0"), None), (("next", "0"), None),
+                                (("bump", "0"), None), (("dropIter", "0"), None)]
+                        yield mk_case(fc, ops, "x-exc-next")
+        for e in GENERIC_EXC:
+            yield mk_case(fc, [(("initRender", "0", "1", "1", "0", "1"), ("resolve", 0, e))], "x-exc-resolve")
+            yield mk_case(fc, [(("draw", "1", "1", "1", "off", "0"), ("resolve", 0, e))], "x-exc-resolve")
+            for k in (0, 1, 2):
+                yield mk_case(fc, [(("draw", "1", "1", "1", "off", str(k + 3)), ("write", k, e))], "x-exc-write")
+            yield mk_case(fc, [(("draw", "0", "1", "1", "off", "0"), ("cwrite", 0, e))], "x-exc-write")
+        # data and iterator dropped together, both finalizer orders
+        for fin in ("0", "1"):
+            for args in ARGS_KINDS:
+                for order in ("0", "1"):
+                    for n in range(0, max(fc, 1) + 2):
+                        fl = [None] + ([("render", n - 1, e) for e in ("Boom", "ValueError", "KeyboardInterrupt")]
+                                       if n else [])
+                        for f in fl:
+                            yield mk_case(fc, [(("handover", fin, args, str(n), order), f), (("render",), None)],
+                                          "x-handover")
         # a finalizer that raises: in every operation that finalizes, then a second finalize from someone else
         yield mk_case(fc, [(("mkData", "1"), None), (("cfin", "0"), hook), (("cfin", "0"), None), (("cdrop", "0"), None)],
                       "x-finhook")
@@ -600,7 +681,8 @@ def random_history(rng):
     try:
         for _ in range(rng.randrange(2, 16)):
             its, datas = sorted(h.it), sorted(h.held)
-            menu = ["render", "str", "draw", "draw", "iterNew", "iterNew", "mkData", "initRender", "initRender"]
+            menu = ["render", "str", "draw", "draw", "iterNew", "iterNew", "mkData", "initRender", "initRender",
+                    "handover"]
             if its:
                 menu += ["next"] * 8 + ["close", "seek", "seek", "bump", "dropIter"]
             if datas:
@@ -615,15 +697,19 @@ def random_history(rng):
             cache = rng.choice(CACHES)
             if kind in ("render", "str", "draw", "next") and rng.random() < 0.5:
                 fault = ("render", rng.randrange(0, 2 * max(fc, 1) + 2) if kind == "draw" else rng.randrange(0, 2),
-                         rng.choice(RENDER_EXC))
+                         rng.choice(ALL_RENDER_EXC))
             if kind == "draw" and rng.random() < 0.3:
-                fault = rng.choice([("validate", rng.randrange(2), "RenderSizeOutofRangeError"), ("resolve", 0, "Boom"),
-                                    ("write", rng.randrange(0, 9), rng.choice(WRITE_EXC)),
-                                    ("cwrite", 0, rng.choice(WRITE_EXC))])
-            if kind == "initRender":
+                fault = rng.choice([("validate", rng.randrange(2), "RenderSizeOutofRangeError"), ("resolve", 0, rng.choice(GENERIC_EXC)),
+                                    ("write", rng.randrange(0, 9), rng.choice(GENERIC_EXC)),
+                                    ("cwrite", 0, rng.choice(GENERIC_EXC))])
+            if kind == "handover":
+                k = rng.randrange(0, max(fc, 1) + 2)
+                op = ("handover", str(rng.randrange(2)), rng.choice(ARGS_KINDS), str(k), str(rng.randrange(2)))
+                fault = ("render", rng.randrange(0, k), rng.choice(ALL_RENDER_EXC)) if k and rng.random() < 0.4 else None
+            elif kind == "initRender":
                 op = ("initRender",) + tuple(str(rng.randrange(2)) for _ in range(5))
                 fault = rng.choice([None, None, ("validate", rng.randrange(2), "RenderSizeOutofRangeError"),
-                                    ("resolve", 0, "Boom"), ("render", 0, rng.choice(RENDER_EXC))])
+                                    ("resolve", 0, rng.choice(GENERIC_EXC)), ("render", 0, rng.choice(ALL_RENDER_EXC))])
             elif kind in ("render", "str"):
                 op = (kind,)
                 if rng.random() < 0.1:
@@ -631,7 +717,7 @@ def random_history(rng):
             elif kind == "draw":
                 animate = rng.random() < 0.7
                 if not draw_terminates(fc, animate, loops, cache, fault):
-                    fault = ("render", rng.randrange(0, max(fc, 1)), rng.choice(RENDER_EXC))
+                    fault = ("render", rng.randrange(0, max(fc, 1)), rng.choice(ALL_RENDER_EXC))
                 op = ("draw", str(int(animate)), str(rng.randrange(2)), str(loops), cache,
                       str(fault[1] + 3 if fault else 0))
             elif kind == "iterNew":
@@ -671,7 +757,7 @@ class C10(Property):
         "iterator's `_render_data` are gone (model: `dropRefs`)",
         "the caller does not finalize, or hand to a second iterator, data that an open iterator is using",
     ]
-    quick_cases = 17000
+    quick_cases = 24000
     thorough_cases = 150000
 
     def gen_constants(self):
@@ -689,10 +775,13 @@ class C10(Property):
                    ("RenderSizeOutofRangeError", RenderSizeOutofRangeError),
                    ("StopDefiniteIterationError", RI.StopDefiniteIterationError),
                    ("FinalizedIteratorError", RI.FinalizedIteratorError), ("Boom", Boom),
-                   ("KeyboardInterrupt", KeyboardInterrupt)]
+                   ("KeyboardInterrupt", KeyboardInterrupt), ("UnicodeDecodeError", UnicodeDecodeError),
+                   ("TypeError", TypeError), ("KeyError", KeyError), ("RuntimeError", RuntimeError),
+                   ("OSError", OSError), ("GeneratorExit", GeneratorExit), ("BaseBoom", BaseBoom)]
         table = ", ".join(f'("{n}", {lb(issubclass(c, Exception))})' for n, c in classes)
         ir, fr, dr, it = (Renderable._init_render_, _orig_from, Renderable.draw, _orig_init)
         slots = ", ".join(f'"{x}"' for x in RenderData.__slots__)
+        del_is_finalize = del_calls_finalize()
         body = (
             "/-! GENERATED by harness/c10.py from the imported package — do not edit -/\n"
             "namespace TIV.C10.Generated\n"
@@ -707,6 +796,7 @@ class C10(Property):
             f"def drawCacheDefault : Nat := {int(dflt(dr, 'cache'))}\n"
             f"def iterLoopsDefault : Int := {int(dflt(it, 'loops'))}\n"
             f"def iterCacheDefault : Nat := {int(dflt(it, 'cache'))}\n"
+            f"def dataDelCallsFinalize : Bool := {lb(del_is_finalize)}\n"
             f"def renderDataSlots : List String := [{slots}]\n"
             f"def exceptionTable : List (String × Bool) := [{table}]\n"
             "end TIV.C10.Generated\n"
@@ -731,7 +821,9 @@ class C10(Property):
                     f"{b} " + ("fault finhook 0 Boom" if r else "nofault") for b, r in calls)
                 yield Case(line, {"calls": calls}, "x-finseq", True)
         for name in ("StopIteration", "AttributeError", "ValueError", "RenderSizeOutofRangeError",
-                     "StopDefiniteIterationError", "FinalizedIteratorError", "Boom", "KeyboardInterrupt"):
+                     "StopDefiniteIterationError", "FinalizedIteratorError", "Boom", "KeyboardInterrupt",
+                     "UnicodeDecodeError", "TypeError", "KeyError", "RuntimeError", "OSError", "GeneratorExit",
+                     "BaseBoom"):
             yield Case(f"isexc {name}", {"name": name}, "x-isexc", True)
         while True:
             yield random_history(rng)
@@ -756,7 +848,8 @@ class C10(Property):
 
 
 EXCEPTION_NAMES = {"StopIteration", "AttributeError", "ValueError", "RenderSizeOutofRangeError",
-                   "StopDefiniteIterationError", "FinalizedIteratorError", "Boom"}
+                   "StopDefiniteIterationError", "FinalizedIteratorError", "Boom", "UnicodeDecodeError", "TypeError",
+                   "KeyError", "RuntimeError", "OSError"}
 
 
 def check_log(fc, ops, outs):
@@ -775,7 +868,8 @@ def check_log(fc, ops, outs):
         for e in filter(None, evs.split(",")):
             kind, rest = e[0], e[1:]
             if kind == "c":
-                owner[int(rest)] = "c" if op[0] == "mkData" or (op[0] == "initRender" and op[2] == "0") else "l"
+                owner[int(rest)] = "c" if op[0] == "mkData" or (op[0] == "initRender" and op[2] == "0") \
+                    or (op[0] == "handover" and op[1] == "0") else "l"
                 fin[int(rest)] = 0
             elif kind == "r":
                 d, flag = rest.split(":")
@@ -838,7 +932,7 @@ def check_log(fc, ops, outs):
                                        f"op #{n}: draw() returned/raised ({outcome}) without having finalized its "
                                        f"render data (object {e[1:]}); events: {evs}")
             # data of finished operations: finalized exactly once by now
-            if op[0] in ("render", "str", "draw", "initRender"):
+            if op[0] in ("render", "str", "draw", "initRender", "handover"):
                 for e in filter(None, evs.split(",")):
                     if e[0] == "c" and fin.get(int(e[1:]), 0) != 1:
                         return Failure(f"not-finalized/{where}",
